@@ -381,3 +381,29 @@ func (SlowLogger) Debug(f string, a ...interface{}) { slowLog(f, a) }
 func (SlowLogger) Info(f string, a ...interface{})  { slowLog(f, a) }
 func (SlowLogger) Warn(f string, a ...interface{})  { slowLog(f, a) }
 func (SlowLogger) Error(f string, a ...interface{}) { slowLog(f, a) }
+
+// FaultyLogger is a SlowLogger whose sink breaks once: the call that brings *Left to zero panics (after OnPanic, if
+// set, has been told), every other call behaves like SlowLogger's. A negative or nil Left never fires.
+type FaultyLogger struct {
+	Left    *int
+	OnPanic func()
+}
+
+func (l FaultyLogger) log(f string, a []interface{}) {
+	if l.Left != nil && *l.Left > 0 {
+		*l.Left--
+		if *l.Left == 0 {
+			*l.Left = -1
+			if l.OnPanic != nil {
+				l.OnPanic()
+			}
+			panic("simulated: the log sink is broken")
+		}
+	}
+	slowLog(f, a)
+}
+
+func (l FaultyLogger) Debug(f string, a ...interface{}) { l.log(f, a) }
+func (l FaultyLogger) Info(f string, a ...interface{})  { l.log(f, a) }
+func (l FaultyLogger) Warn(f string, a ...interface{})  { l.log(f, a) }
+func (l FaultyLogger) Error(f string, a ...interface{}) { l.log(f, a) }
